@@ -87,8 +87,50 @@ static long hot_lookups(unsigned id, long iterations)
    return wrong;
 }
 
+// ONE graph read by several threads at once, each with its own Printer and stream: printing goes through const accessors only,
+// so every thread must obtain the text a single thread obtains.  (argv[1] == "shared")
+static int shared_graph(int threads, int rounds)
+{
+   impl::Lexicon lex;
+   impl::Translation_unit unit { lex };
+   auto& greg = *unit.global_region();
+   // functions with long parameter lists, classes with bases, blocks with handlers: the list-like stores behind them are read by position
+   for (int f = 0; f < 6; ++f) {
+      auto* m = lex.make_mapping(greg, Mapping_level{ 1 });
+      impl::Warehouse<ipr::Type> ts;
+      for (int i = 0; i < 40 + f; ++i) {
+         std::u8string s = u8"p"; s += char8_t('a' + i % 26); s += char8_t('a' + f);
+         auto& t = (i % 3 == 0) ? lex.get_pointer(lex.int_type()) : (i % 3 == 1 ? lex.bool_type() : lex.get_reference(lex.char_type()));
+         m->param(lex.get_identifier(s), t);
+         ts.push_back(t);
+      }
+      auto& ft = lex.get_function(lex.get_product(ts), lex.void_type());
+      std::u8string n = u8"fun"; n += char8_t('0' + f);
+      auto* v = greg.declare_var(lex.get_identifier(n), ft);
+      (void) v;
+      auto* cls = lex.make_class(greg);
+      for (int b = 0; b < 12 + f; ++b) cls->declare_base(b % 2 ? lex.int_type() : lex.get_pointer(lex.char_type()));
+      std::u8string cn = u8"cls"; cn += char8_t('0' + f);
+      auto* td = greg.declare_type(lex.get_identifier(cn), lex.class_type()); td->init = cls;
+   }
+   auto print = [&] { std::ostringstream os; ipr::Printer pp { lex, os }; try { pp << unit; } catch (const std::exception& e) { os << "|exception:" << e.what(); } return os.str(); };
+   const std::string want = print();
+   long mismatches = 0, runs = 0;
+   for (int r = 0; r < rounds; ++r) {
+      std::vector<std::string> got(threads);
+      std::vector<std::thread> ts;
+      for (int i = 0; i < threads; ++i) ts.emplace_back([&, i] { for (int k = 0; k < 20; ++k) got[i] = print(); });
+      for (auto& t : ts) t.join();
+      for (int i = 0; i < threads; ++i) { ++runs; if (got[i] != want) { ++mismatches; std::printf("mismatch shared-graph round=%d thread=%d\n", r, i); } }
+   }
+   std::printf("shared-graph threads=%d rounds=%d bytes=%zu runs=%ld mismatches=%ld\n", threads, rounds, want.size(), runs, mismatches);
+   return 0;
+}
+
 int main(int argc, char** argv)
 {
+   if (argc > 1 and std::string(argv[1]) == "shared")
+      return shared_graph(argc > 2 ? std::atoi(argv[2]) : 4, argc > 3 ? std::atoi(argv[3]) : 3);
    int threads = argc > 1 ? std::atoi(argv[1]) : 4;
    int rounds = argc > 2 ? std::atoi(argv[2]) : 5;
    unsigned seed = argc > 3 ? unsigned(std::atoi(argv[3])) : 1;
